@@ -396,6 +396,10 @@ impl DeviceControl for ControlHandle {
 
             let cmd = cmd::ReadMem::new(address, read_len);
             let ack: ack::ReadMem = unwrap_or_log!(self.send_cmd(cmd));
+            if ack.data.len() != buf_chunk.len() {
+                let err_msg = "read mem failed: read length mismatch";
+                return Err(ControlError::Io(anyhow::Error::msg(err_msg)));
+            }
             buf_chunk.copy_from_slice(ack.data);
             address += read_len as u64;
         }
